@@ -247,6 +247,11 @@ def _oracle(ctx, ex, obs):
             sig = None
             if out1 in ('leak', 'error') and isinstance(val1, Exception):
                 sig = exc_signature(val1)
+                if sig and '_recorder:toyaml' in sig:
+                    # name the value type toyaml() could not handle
+                    import re
+                    m = re.search(r'toyaml\(\): (\w+)', str(val1))
+                    sig += ':' + (m.group(1) if m else '?')
             ctx.fail('%s:%s' % (what, sig or ex['call']['op']),
                      'bare: %r\nobserved: %r\nobservers: %r' %
                      (base, seen, obs))
@@ -265,7 +270,7 @@ def _oracle(ctx, ex, obs):
                 if lpb not in [b for b in bodies1 if b is not None]:
                     ctx.fail('last_raw_reply-differs', repr(lpb[:200]))
         # statistics
-        if obs['stats'] and out1 != 'local':
+        if obs['stats'] and out1 != 'local' and seen == base:
             op = ex['call']['op']
             snap = dict(conn1.statistics.snapshot())
             if op.startswith('Iter'):
